@@ -25,6 +25,7 @@ UNPROVED = ['cw_rankedpairs (rankedPairs sc v 1 = ok [w]): FALSE as stated on th
             'candidate, here the whole Smith set)',
             'rankedpairs no_candidate_dropped: FALSE (rankedpairs_dropped_witness)',
             'copeland second-order defining computation (only the first-order scores are characterised: copeland_defining)']
+NAME_MODES = ['str', 'int0', 'empty0']
 REQUIRED_COUNTERS = ['converter', 'has_cw', 'sparse_never_loser', 'all_tied', 'cycle', 'from_ranked', 'uab_true', 'uab_false',
                      'n_all', 'n_one', 'hybrid', 'second_order_used', 'fraction', 'missing_pair']
 RULE = ('pairwise dictionaries over 2-5 candidates (6 occasionally) as in C06 (sparse / dense / tied / zero-count entries, '
@@ -104,6 +105,22 @@ def _gen(rng, tier):
     for prof, tag in DIRECTED_PROFILES:
         for op in ('benham', 'tideman'):
             yield _mk_hybrid(op, prof, [tag, 'directed'])
+    # centre squeeze: candidate 0 beats everybody pairwise but has the fewest first preferences (so an elimination method that
+    # overlooks the Condorcet winner elects somebody else); under every naming mode - in int0 / empty0 candidate 0 is FALSY
+    for t in range(9 if tier == 'quick' else 90):
+        a, b = rng.randint(3, 9), rng.randint(3, 9)
+        c = rng.randint(1, min(a, b) - 1)
+        if not (a < b + c and b < a + c):
+            a = b = c + 1
+        prof = [[[1, 0, 2], str(a)], [[2, 0, 1], str(b)], [[0, 1, 2] if rng.random() < 0.5 else [0, 2, 1], str(c)]]
+        if rng.random() < 0.4:
+            prof = [[bl + [3], w] for bl, w in prof]          # a common loser below
+        rng.shuffle(prof)
+        for op in ('benham', 'tideman'):
+            cs = _mk_hybrid(op, prof, ['centre_squeeze', 'directed'])
+            cs['_names'] = ['str', 'int0', 'empty0'][t % 3]
+            cs['_tags'].append('names:' + cs['_names'])
+            yield cs
     for k in range(N):
         r = rng.random()
         m = rng.choice([2, 3, 3, 4, 4, 4, 5, 5]) if rng.random() < 0.95 else 6
